@@ -185,6 +185,11 @@ def run(ctx, chk):
                 # capacity cell (no-alloc only): must be an error
                 chk.ob(cell.result.startswith("err"), "C18/fsm/silent-truncation/%s" % cell.result, "%s: reassembly buffer overflow yields %s" % (c, cell.result),
                        sample={"config": c, "reassembly_overflow": cell.result})
+                # ... and must leave the group as it was: otherwise the following fragments are
+                # accepted and a message with a hole (a silently truncated payload) is delivered
+                same = cell.post_sid == "sid" and cell.post_s == "s" and cell.post_D == "D" and not cell.stores
+                chk.ob(same, "C18/fsm/capacity-state/%s,%s,%s/%d" % (cell.post_sid, cell.post_s, cell.post_D, len(cell.stores)),
+                       "%s: after a reassembly buffer overflow the parser state is (%s, %s, %s): the rest of the group will be accepted and delivered without the rejected fragment" % (c, cell.post_sid, cell.post_s, cell.post_D))
                 continue
             key = (cell.atoms["idv"] is not None, cc[:8] + (cc[9],))
             sig.setdefault(repr(key), 0)
